@@ -28,11 +28,14 @@ pub struct HopSpec {
 pub struct Chain {
     pub start: String,
     pub hops: Vec<HopSpec>,
+    /// the original request carries an explicit `Host` header naming the start URI's host (callers that always set Host)
+    pub explicit_host: bool,
 }
 
 pub fn chain_json(c: &Chain) -> Value {
     json!({
         "start": c.start,
+        "original_request_has_explicit_host": c.explicit_host,
         "hops": c.hops.iter().map(|h| json!({
             "status": h.status,
             "locations": h.locations.iter().map(|l| String::from_utf8_lossy(l).to_string()).collect::<Vec<_>>(),
@@ -90,7 +93,14 @@ pub fn run_chain(c: &Chain, st: &mut Stats) -> Result<(), String> {
     let start_uri: ureq_proto::http::Uri = c.start.parse().map_err(|e| format!("start URI {:?}: {}", c.start, e))?;
     let mut cur: Parts = parse(&c.start);
     let mut cur_target = HttpTarget::from_parts(&cur).ok_or("start URI is not http(s)")?;
-    let req = Request::get(start_uri).header("authorization", "Basic abc").body(()).map_err(|e| e.to_string())?;
+    let mut b = Request::get(start_uri).header("authorization", "Basic abc");
+    if c.explicit_host {
+        // the Host clause speaks about every followed request: an explicit Host written for the first URI must not travel to
+        // another host
+        b = b.header("host", cur_target.host.as_str());
+        st.class("original_request_with_explicit_host");
+    }
+    let req = b.body(()).map_err(|e| e.to_string())?;
     let mut f = Flow::new(req).map_err(|e| format!("Flow::new: {:?}", e))?;
     let mut nontrivial = false;
     for (i, h) in c.hops.iter().enumerate() {
@@ -334,7 +344,8 @@ fn exec_random(t: &mut Tape, st: &mut Stats) -> Result<(), String> {
         hops.push(HopSpec { status, locations, same_host_policy: t.bool(), must_err, despite: t.chance(12) });
     }
     st.case_digest = t.digest();
-    let c = Chain { start, hops };
+    let explicit_host = t.chance(15);
+    let c = Chain { start, hops, explicit_host };
     st.describe(|| chain_json(&c));
     run_chain(&c, st)
 }
@@ -360,7 +371,8 @@ fn exec_table(t: &mut Tape, st: &mut Stats) -> Result<(), String> {
         base.to_string()
     };
     hops.push(HopSpec { status: 307, locations: vec![r.as_bytes().to_vec()], same_host_policy: true, must_err: false, despite: false });
-    let c = Chain { start, hops };
+    let explicit_host = as_second_hop && r.len() % 2 == 0;
+    let c = Chain { start, hops, explicit_host };
     st.describe(|| chain_json(&c));
     st.class("rfc_5_4_table");
     run_chain(&c, st)
@@ -384,7 +396,7 @@ fn exec_errors(t: &mut Tape, st: &mut Stats) -> Result<(), String> {
         locations.push(ERROR_LOCATIONS[e].to_vec());
     }
     hops.push(HopSpec { status: 302, locations, same_host_policy: false, must_err: true, despite: false });
-    let c = Chain { start: "http://a.test/x/y".into(), hops };
+    let c = Chain { start: "http://a.test/x/y".into(), hops, explicit_host: false };
     st.describe(|| chain_json(&c));
     run_chain(&c, st)
 }
